@@ -120,20 +120,33 @@ class Rac:
         kept = [f for f in self.failures if bool(_re.match(r"K\d+:", f["key"])) == known_like]
         if len(kept) < (5 if known_like else 25):
             self.failures.append(dict(key=key, what=what, script=script, function=function, section=self.cur))
+            # failing inputs found so far survive a harness that is later killed (a change that makes a later call hang would otherwise turn
+            # everything found into "checker broken"): the driver reads this file when the harness does not finish
+            try:
+                self._dump(self.args.out + ".partial", partial=True)
+            except Exception:      # noqa
+                pass
 
     def out_of_time(self, frac=1.0):
         return self.args.budget is not None and time.time() - self.t0 > self.args.budget * frac
 
-    def finish(self):
+    def _dump(self, path, partial=False):
         res = dict(property=self.prop, tier=self.tier, seed=self.args.seed, evaluations=self.evaluations,
                    distinct_nontrivial=self.nontrivial, rule=" ; ".join(self.rules), bounds=self.bounds,
-                   samples=self.samples, exhaustive=self.exhaustive, failures=self.failures,
+                   samples=self.samples, exhaustive=self.exhaustive and not partial, failures=self.failures,
                    n_failing_keys=len(self.failkeys), sections=self.sections,
-                   empty_sections=[n for n, sec in self.sections.items()
-                                   if sec["evaluations"] == 0 and sec["failures"] == 0 and sec["opened_with_time_to_spare"]],
-                   imported_from=self.where, wall_s=round(time.time() - self.t0, 2))
-        with open(self.args.out, "w") as fh:
+                   empty_sections=[] if partial else [n for n, sec in self.sections.items()
+                                                      if sec["evaluations"] == 0 and sec["failures"] == 0 and sec["opened_with_time_to_spare"]],
+                   imported_from=self.where, wall_s=round(time.time() - self.t0, 2), **({"partial": True} if partial else {}))
+        with open(path, "w") as fh:
             json.dump(res, fh, indent=1, default=str)
+
+    def finish(self):
+        self._dump(self.args.out)
+        try:
+            os.unlink(self.args.out + ".partial")
+        except OSError:
+            pass
         return 0
 
 
